@@ -248,6 +248,71 @@ func extractC01(c *ctxT) {
 		}
 	}
 
+	// ---- ExecuteClaim: look-up guard, deletion of the parked entry, and their order relative to the handlers.
+	//   execChecks : `x, found := k.GetPendingExecuteClaim(ctx, eventNonce)` followed by `if !found { return err }`
+	//   execDeletes: an unconditional top-level `k.DeletePendingExecuteClaim(ctx, eventNonce)`
+	//   execDeleteFirst: that statement precedes every top-level statement that (transitively in its own subtree) calls a
+	//                    handler (SendToFxExecuted / BridgeCallHandler / BridgeCallResultHandler)
+	execChecks, execDeletes, execDeleteFirst := false, false, false
+	var execHandlers []string
+	if fd := c.findFunc(c01Keeper, "Keeper", "ExecuteClaim"); fd != nil && fd.Body != nil {
+		delIdx, firstHandler, getIdx := -1, -1, -1
+		handlerNames := []string{"SendToFxExecuted", "BridgeCallHandler", "BridgeCallResultHandler"}
+		for i, st := range fd.Body.List {
+			switch x := st.(type) {
+			case *ast.AssignStmt:
+				if len(x.Rhs) == 1 && c.src(x.Rhs[0]) == "k.GetPendingExecuteClaim(ctx, eventNonce)" && len(x.Lhs) == 2 && c.src(x.Lhs[1]) == "found" {
+					getIdx = i
+				}
+			case *ast.IfStmt:
+				if getIdx >= 0 && i == getIdx+1 && x.Init == nil && c.src(x.Cond) == "!found" && returnsError(x.Body) {
+					execChecks = true
+				}
+			case *ast.ExprStmt:
+				if c.src(x.X) == "k.DeletePendingExecuteClaim(ctx, eventNonce)" && delIdx < 0 {
+					delIdx = i
+				}
+			}
+			for _, h := range handlerNames {
+				if callsMethod(st, h) {
+					if firstHandler < 0 {
+						firstHandler = i
+					}
+					execHandlers = append(execHandlers, h)
+				}
+			}
+		}
+		execDeletes = delIdx >= 0
+		execDeleteFirst = delIdx >= 0 && firstHandler >= 0 && delIdx < firstHandler && getIdx >= 0 && getIdx < delIdx
+		facts["C01.executeClaim"] = map[string]any{"getIdx": getIdx, "deleteIdx": delIdx, "firstHandlerIdx": firstHandler, "handlers": execHandlers}
+	}
+	// the precompile runs ExecuteClaim inside StateDB.ExecuteNativeAction and returns its error (so a handler error
+	// reverts the native action as a whole)
+	execInNative := false
+	if fd := c.findFunc("x/crosschain/precompile", "ExecuteClaimMethod", "Run"); fd != nil && fd.Body != nil {
+		ast.Inspect(fd.Body, func(n ast.Node) bool {
+			ce, ok := n.(*ast.CallExpr)
+			if !ok {
+				return true
+			}
+			se, ok := ce.Fun.(*ast.SelectorExpr)
+			if !ok || se.Sel.Name != "ExecuteNativeAction" || len(ce.Args) == 0 {
+				return true
+			}
+			fl, ok := ce.Args[len(ce.Args)-1].(*ast.FuncLit)
+			if !ok || fl.Body == nil {
+				return true
+			}
+			for _, st := range fl.Body.List {
+				if x, ok := st.(*ast.IfStmt); ok && x.Init != nil && callsMethod(x.Init, "ExecuteClaim") &&
+					c.src(x.Cond) == "err != nil" && returnsError(x.Body) {
+					execInNative = true
+				}
+			}
+			return true
+		})
+	}
+
 	// ---- SetLastTotalPower call sites
 	sites := map[string]bool{}
 	for _, fd := range c.funcDecls(c01Keeper) {
@@ -368,6 +433,10 @@ func extractC01(c *ctxT) {
 	w("checkBridgerIsOracle: `if !oracle.Online { return err }`", "claimRequiresOnline", "Bool", leanBool(online))
 	w("UnbondedOracle calls DelLastEventNonceByOracle", "unbondDeletesLastNonce", "Bool", leanBool(unbondDel))
 	w("UnbondedOracle and the delegate address' staking unbonding delegation: error unless one exists / ErrInvalid while one exists", "unbondUbdRule", "UbdRule", "."+ubdRule)
+	w("ExecuteClaim: `_, found := GetPendingExecuteClaim(ctx, eventNonce); if !found { return err }`", "execChecksPending", "Bool", leanBool(execChecks))
+	w("ExecuteClaim has an unconditional top-level `k.DeletePendingExecuteClaim(ctx, eventNonce)`", "execDeletesPending", "Bool", leanBool(execDeletes))
+	w("ExecuteClaim: the look-up precedes the deletion, and the deletion precedes every statement that calls a handler", "execDeletesBeforeHandler", "Bool", leanBool(execDeleteFirst))
+	w("the executeClaim precompile runs ExecuteClaim inside ExecuteNativeAction and returns its error", "execErrorRevertsNativeAction", "Bool", leanBool(execInNative))
 	w("BondedOracle calls SetLastTotalPower", "refreshOnBond", "Bool", leanBool(sites["BondedOracle"]))
 	w("AddDelegate calls SetLastTotalPower", "refreshOnAddDelegate", "Bool", leanBool(sites["AddDelegate"]))
 	w("slashing calls SetLastTotalPower when any oracle was slashed", "refreshOnSlash", "Bool", leanBool(sites["slashing"] && slashingCond))
@@ -393,7 +462,9 @@ func extractC01(c *ctxT) {
 	facts["C01.claimVoterSource"] = voterSrc
 	facts["C01.claimValidateBasicBindsSigner"] = binds
 	facts["C01.guards"] = map[string]bool{"contiguity": contig, "tallyNotObserved": tallyNotObs, "tallyNextNonce": tallyNext,
-		"online": online, "unbondDeletesLastNonce": unbondDel, "fallback": fallback}
+		"online": online, "unbondDeletesLastNonce": unbondDel, "fallback": fallback,
+		"execChecksPending": execChecks, "execDeletesPending": execDeletes, "execDeletesBeforeHandler": execDeleteFirst,
+		"execErrorRevertsNativeAction": execInNative}
 	for k, v := range facts {
 		c.facts[k] = v
 	}
